@@ -35,6 +35,8 @@ pub const F_WILD: u32 = 1 << 23;
 pub const F_SAME_FIELD: u32 = 1 << 24;
 pub const F_QUOTING: u32 = 1 << 25;
 pub const F_REUSE: u32 = 1 << 26;
+/// every rule of the scenario is a "big counted list" rule (T6)
+pub const F_T6: u32 = 1 << 27;
 
 #[derive(Clone, Debug)]
 pub struct Knobs {
@@ -48,6 +50,9 @@ pub struct Knobs {
     /// document generation mode: prefer values that satisfy the predicates, and split the keys of
     /// object arrays over their elements
     pub satisfy: bool,
+    /// 0 = drawn per field; 1 = every addressed field present with a satisfying core;
+    /// 2 = only one or two of the addressed fields present (with cores)
+    pub doc_mode: u8,
 }
 
 impl Knobs {
@@ -105,6 +110,7 @@ impl Knobs {
             cond_depth: 1 + rng.below(3),
             docs: 12,
             satisfy: false,
+            doc_mode: 0,
         }
     }
     pub fn has(&self, f: u32) -> bool {
@@ -118,9 +124,11 @@ const WORDS: [&str; 20] = [
     "foo", "bar", "baz", "fo", "o", "Foo", "BAR", "foobar", "x", "1", "12", "true", "null", "a.b",
     "f*o", "in", "is", "ob", "ar", "barbaz",
 ];
-const QUOTING_WORDS: [&str; 18] = [
+const QUOTING_WORDS: [&str; 22] = [
     "~", "*", "'", "\"", "yes", "1.0", "0x10", " lead", "trail ", "a: b", "a #b", "line1\nline2",
     "-", "?", "[x]", "{y}", "a\tb", "\tx",
+    "aaaaaaaaaaaaaaaaaaaaaaaaaaaaaaa\u{e9}bbbbbbbb", "aaaaaaaaaaaaaaaaaaaaaaaaaaaaaa\u{65e5}\u{672c}bbbbbbbb",
+    "0123456789012345678901234567890123456789", "aaaaaaaaaaaaaaaaaaaaaaaaaaaaaaaa\u{1f980}b",
 ];
 pub const REGEXES: [(&str, &[&str]); 16] = [
     ("fo+", &["foo", "xfoox", "f"]),
@@ -568,7 +576,7 @@ fn family_pattern(rng: &mut Rng, kind: usize, icase: bool) -> String {
 fn gen_structured(rng: &mut Rng, k: &Knobs) -> Yaml {
     let mut det = Mapping::new();
     let cond;
-    if rng.chance(1, 40) {
+    if rng.chance(1, 12) {
         // T5: sizes at the thresholds the optimiser and solver use (matrix: a field counted up to
         // 255 times, more than 31 columns; automata with 63/64/65 needles)
         let mut entries = vec![];
@@ -582,13 +590,28 @@ fn gen_structured(rng: &mut Rng, k: &Knobs) -> Yaml {
                 }
                 entries.push(Yaml::Mapping(m));
             }
-        } else {
-            let cols = *rng.pick(&[31usize, 32, 33, 40]);
+        } else if rng.chance(1, 2) {
+            let cols = *rng.pick(&[31usize, 32, 33, 40, 128, 129, 130, 160, 196]);
             for r in 0..2 {
                 let mut m = Mapping::new();
                 for c in 0..cols {
-                    m.insert(ystr(&format!("f{}", c)), ystr(if (c + r) % 3 == 0 { "foo" } else { "*o*" }));
+                    m.insert(ystr(&format!("f{:03}", c)), ystr(if r == 1 { "foo" } else { "*o*" }));
                 }
+                entries.push(Yaml::Mapping(m));
+            }
+        } else {
+            // many one-field alternatives plus two conjunctions sharing a field (a wide matrix
+            // whose rows have one cell each)
+            let n = *rng.pick(&[33usize, 129, 140, 160, 190, 200, 257, 300]);
+            for c in 0..n {
+                let mut m = Mapping::new();
+                m.insert(ystr(&format!("f{:03}", c)), ystr("hit"));
+                entries.push(Yaml::Mapping(m));
+            }
+            for v in ["x", "y"] {
+                let mut m = Mapping::new();
+                m.insert(ystr("k"), ystr(v));
+                m.insert(ystr("g"), ystr(v));
                 entries.push(Yaml::Mapping(m));
             }
         }
@@ -712,8 +735,43 @@ fn gen_structured(rng: &mut Rng, k: &Knobs) -> Yaml {
     Yaml::Mapping(rule)
 }
 
+/// T6: one key with an all()/of() modifier over a list of 64..257 distinct needles (the solver's
+/// per-needle counting paths for large automata), optionally a second plain predicate.
+fn gen_t6(rng: &mut Rng) -> Yaml {
+    let n = *rng.pick(&[64usize, 65, 70, 100, 128, 129, 200, 257]);
+    let f = *rng.pick(&FIELDS);
+    let kind = rng.below(3);
+    let items: Vec<Yaml> = (0..n)
+        .map(|i| {
+            let w = format!("w{}x", i);
+            ystr(&match kind {
+                0 => format!("*{}*", w),
+                1 => w,
+                _ => format!("{}*", w),
+            })
+        })
+        .collect();
+    let key = if rng.chance(1, 2) { format!("all({})", f) } else { format!("of({}, {})", f, 1 + rng.below(3)) };
+    let mut m = Mapping::new();
+    m.insert(ystr(&key), Yaml::Sequence(items));
+    if rng.chance(1, 3) {
+        m.insert(ystr("e"), ystr("foo"));
+    }
+    let mut det = Mapping::new();
+    det.insert(ystr("A"), Yaml::Mapping(m));
+    det.insert(ystr("condition"), ystr(if rng.chance(1, 4) { "not A" } else { "A" }));
+    let mut rule = Mapping::new();
+    rule.insert(ystr("detection"), Yaml::Mapping(det));
+    rule.insert(ystr("true_positives"), Yaml::Sequence(vec![]));
+    rule.insert(ystr("true_negatives"), Yaml::Sequence(vec![]));
+    Yaml::Mapping(rule)
+}
+
 /// A complete rule as a YAML value (detection + empty example lists).
 pub fn gen_rule(rng: &mut Rng, k: &Knobs) -> Yaml {
+    if k.has(F_T6) || rng.chance(1, 150) {
+        return gen_t6(rng);
+    }
     if rng.chance(1, 5) {
         return gen_structured(rng, k);
     }
@@ -851,6 +909,8 @@ fn pattern_values(p: &str, out: &mut Vec<MVal>) {
                 out.push(s(&format!("{}x", w)));
                 out.push(s(&format!("x{}", w)));
                 out.push(s(&format!("X{}X", w.to_uppercase())));
+                out.push(s(&format!("x\n{}", w)));
+                out.push(s(&format!("{}\nx", w)));
                 out.push(s(&format!("{}{}", w, w)));
             }
         }
@@ -966,8 +1026,15 @@ fn schema_value(v: &Yaml, target: &mut Schema) {
     match v {
         Yaml::Mapping(m) => schema_mapping(m, target),
         Yaml::Sequence(s) => {
-            for item in s.iter().take(12) {
-                schema_value(item, target);
+            // long lists: members from the start, the middle and the end
+            let n = s.len();
+            let idx: Vec<usize> = if n <= 12 {
+                (0..n).collect()
+            } else {
+                vec![0, 1, 2, 3, n / 4, n / 2 - 1, n / 2, 3 * n / 4, n - 4, n - 3, n - 2, n - 1]
+            };
+            for i in idx {
+                schema_value(&s[i], target);
             }
         }
         v => {
@@ -1134,6 +1201,9 @@ pub fn random_scalar(rng: &mut Rng, k: &Knobs) -> MVal {
 }
 
 fn gen_leaf(rng: &mut Rng, node: &Schema, k: &Knobs) -> MVal {
+    if k.doc_mode != 0 && !node.cores.is_empty() {
+        return rng.pick(&node.cores).clone();
+    }
     if k.satisfy && !node.cores.is_empty() && rng.chance(3, 4) {
         return rng.pick(&node.cores).clone();
     }
@@ -1146,8 +1216,20 @@ fn gen_leaf(rng: &mut Rng, node: &Schema, k: &Knobs) -> MVal {
 
 fn gen_obj(rng: &mut Rng, node: &Schema, k: &Knobs, depth: usize) -> Vec<(String, MVal)> {
     let mut out = vec![];
-    for (key, child) in &node.children {
-        if rng.chance(1, if k.satisfy { 12 } else { 5 }) {
+    let sparse_keep: Vec<usize> = if k.doc_mode == 2 && depth == 0 && !node.children.is_empty() {
+        let n = if rng.chance(2, 3) { 1 } else { 2 };
+        (0..n).map(|_| rng.below(node.children.len())).collect()
+    } else {
+        vec![]
+    };
+    for (ci, (key, child)) in node.children.iter().enumerate() {
+        if k.doc_mode == 2 && depth == 0 {
+            if !sparse_keep.contains(&ci) {
+                continue;
+            }
+        } else if k.doc_mode == 1 {
+            // present
+        } else if rng.chance(1, if k.satisfy { 12 } else { 5 }) {
             continue; // absent
         }
         let objlike = !child.children.is_empty();
@@ -1212,7 +1294,15 @@ fn gen_obj(rng: &mut Rng, node: &Schema, k: &Knobs, depth: usize) -> Vec<(String
                         .collect(),
                 )
             } else if r < 96 {
-                MVal::Obj(vec![])
+                let inner = gen_leaf(rng, child, k);
+                match rng.below(6) {
+                    0 => MVal::Obj(vec![]),
+                    1 => MVal::Obj(vec![("#text".to_owned(), inner), ("#attributes".to_owned(), MVal::Obj(vec![("#id".to_owned(), MVal::Int(1))]))]),
+                    2 => MVal::Obj(vec![("value".to_owned(), inner)]),
+                    3 => MVal::Obj(vec![("$".to_owned(), inner), ("@type".to_owned(), MVal::Str("s".into()))]),
+                    4 => MVal::Obj(vec![("0".to_owned(), inner)]),
+                    _ => MVal::Obj(vec![("text".to_owned(), inner), ("_type".to_owned(), MVal::Str("t".into()))]),
+                }
             } else {
                 MVal::Null
             }
@@ -1395,6 +1485,14 @@ pub fn docs_for(rng: &mut Rng, rule: &Yaml, k: &Knobs, n: usize) -> Vec<MVal> {
     while docs.len() < n {
         let mut k2 = k.clone();
         k2.satisfy = docs.len() % 3 == 1;
+        let wide = schema.children.len() > 24;
+        k2.doc_mode = match (wide, docs.len() % 6) {
+            (true, 1) | (true, 3) | (true, 5) => 2,
+            (true, 2) => 1,
+            (false, 4) => 1,
+            (false, 5) => 2,
+            _ => 0,
+        };
         docs.push(gen_doc(rng, &schema, &k2));
     }
     docs
